@@ -142,6 +142,19 @@ def correspond(ctx, scale):
                 e2 = f['mk']()
                 e2.load_state_dict(copy.deepcopy(sd), assign=True)       # replaces the tensor objects instead of copying into them
                 variants.append(('reload_assign', e2))
+                # the checkpoint as a PLAIN mapping of tensors (safetensors, re-keyed / filtered dicts): no `_metadata` version information travels with it
+                p2 = f['mk']()
+                p2.load_state_dict({k_: v_.clone() for k_, v_ in sd.items()})
+                variants.append(('reload_plain_dict', p2))
+                # the whole module through torch.save / torch.load (pickle): where the library supports it, the copy is the module
+                try:
+                    import io as _io
+                    buf_ = _io.BytesIO()
+                    torch.save(a, buf_)
+                    buf_.seek(0)
+                    variants.append(('pickle_roundtrip', torch.load(buf_, weights_only=False)))
+                except Exception:
+                    pass      # local lambdas (spherical LFQ) do not pickle: a loud failure, not a silent difference
                 # roll-back: the checkpoint is loaded into a USED module (another instance that already went through its own training steps, k-means
                 # initialisation included) - everything the module knows must come from the named store, not from host-side mirrors of it
                 u2 = f['mk']()
@@ -160,7 +173,7 @@ def correspond(ctx, scale):
                 # optimiser state itself is the caller's to checkpoint: plain SGD has none
                 opts = {id(v): SGD(v.parameters(), lr=0.05) for _, v in variants}
             for vname, v in variants:
-                dist[vname] += 1
+                dist[vname] = dist.get(vname, 0) + 1
             ref_mod = a
             for si, (x, train, seed, m) in enumerate(post):
                 try:
